@@ -114,6 +114,13 @@ class C01(TreeSpec):
     own_checks = ("value_identity", "sec_value", "sec_price", "weight", "weight_sum", "ledger_pos", "ledger_cash", "ledger_value", "notional", "rows_value", "rows_cash", "rows_position", "rows_notional_value")
     tiers = {"quick": dict(runs=6000, builds=("py", "cy"), wall=75), "thorough": dict(runs=150000, builds=("py", "cy"), wall=1500)}
 
+    def gen(self, r, tier, i):
+        if i % 16 == 11:
+            # a real Backtest driven through zero equity: after the liquidating update the date loop moves on without reading
+            # anything (no algo runs any more) - the rows of the bankruptcy date must still be its end-of-date state
+            return drive_engine.gen_bankrupt_plan(r, tier)
+        return TreeSpec.gen(self, r, tier, i)
+
     def profile_for(self, r, i):
         if i % 8 == 5:
             return "bankrupt"  # leveraged histories: the liquidating update must leave a consistent tree too
@@ -125,7 +132,9 @@ class C02(TreeSpec):
     id = "C02"
     engine_every = 4
     judged = ("C02",)
-    own_checks = ("ledger_value", "ledger_cash", "ledger_pos", "conservation")
+    # (the cost terms of the identity as the library itself records them - fees and bid/offer paid per date - are what a user
+    # reconciles with: a cost reported but never paid breaks the day-by-day identity as read from the histories)
+    own_checks = ("ledger_value", "ledger_cash", "ledger_pos", "conservation", "rows_fees", "rows_bidoffer_paid", "rows_strategy_bidoffer_paid")
 
     def profile_for(self, r, i):
         return "accounting" if i % 5 else "fi"
@@ -615,6 +624,17 @@ def _corrupt_future(plan, cut, kind, seed):
                     row[2] = pert(row[2], "scale")
                     row[3] = pert(row[3], "scale")
             continue
+        if fr["kind"] == "table":
+            # close / roll schedules: a line dated after the cut moves further into the future, its other fields are redrawn
+            import datetime as _dtc
+
+            dc = [fr["cols"].index(c) for c in fr.get("datecols", [])]
+            for row in fr["data"]:
+                if dc and row[dc[0]] > cutdate:
+                    row[dc[0]] = (_dtc.datetime.fromisoformat(row[dc[0]]) + _dtc.timedelta(days=r.randint(1, 40))).isoformat()
+                    if "factor" in fr["cols"]:
+                        row[fr["cols"].index("factor")] = pert(row[fr["cols"].index("factor")], "scale")
+            continue
         if fr["kind"] not in ("frame", "series"):
             continue
         rows = fr.get("rows") or f["dates"]
@@ -663,10 +683,22 @@ class C04(Spec):
             plan = drive_engine.gen_frame_gate_plan(r, tier)
         elif i % 12 == 3:
             plan = drive_engine.gen_replay_plan(r, tier)
+        elif i % 12 == 9:
+            # the close / roll / active families: schedule tables whose lines are dated between ticks (a line stamped later than
+            # `now` - even on the same calendar day - is data dated after now)
+            plan = SPECS["C20"].gen(r, tier, 4 * r.randrange(1000) + r.choice([1, 2, 3]))
+            plan["cfg"]["obs_eod"] = False
         else:
             plan = drive_engine.gen_all_algos_plan(r, tier, stateful=True)
         n = len(plan["feed"]["dates"])
         plan["cuts"] = [[r.randint(0, n - 2), r.choice(["scale", "redraw", "nan", "zero", "mixed"]), r.randrange(1 << 30)] for _ in range(4)]
+        if i % 12 == 9:
+            # one cut right in front of a schedule line: the last tick that is still earlier than the line's stamp
+            stamps = sorted(row[fr["cols"].index("date")] for fr in plan["extra"].values() if fr.get("kind") == "table" for row in fr["data"])
+            before = [k for k in range(n - 1) if any(plan["feed"]["dates"][k] < sdt for sdt in stamps) and any(plan["feed"]["dates"][k] < sdt <= plan["feed"]["dates"][k + 1] for sdt in stamps)]
+            if before:
+                plan["cuts"][0][0] = r.choice(before)
+                plan.setdefault("fired", {})["cut_right_before_a_schedule_line"] = 1
         # place one cut at a boundary that matters: inside the empty stretch at the head of a supplied frame (the first values
         # that exist are then dated after the cut - anything that reaches for "the nearest value" finds the future)
         leads = []
@@ -1129,6 +1161,21 @@ class C11(Spec):
         if i % 10 == 9:
             # a blotter (rows in any order) handed in as additional data and replayed: one more frame that belongs to the caller
             plan = drive_engine.gen_replay_plan(r, tier)
+        elif i % 10 == 6:
+            # a portfolio built up and wound down in capped steps: a covariance-based weigher sees an empty selection before and
+            # after the invested stretch, LimitDeltas completes the (empty) target vector with the names still held - whatever
+            # object carries the weights from one algo to the next on such a date belongs to that date of that backtest only
+            fspec, fired = drive_engine.gen_feed(r, r.randint(20, 30), r.randint(3, 4), style="bday", faults={}, spread_p=0.0)
+            drive_engine.ensure_moving(fspec, r)
+            dts, tick = fspec["dates"], fspec["tickers"]
+            a0 = r.randint(14, len(dts) - 5)
+            b0 = r.randint(a0 + 1, len(dts) - 3)
+            sig = [[a0 <= k < b0 for _ in tick] for k in range(len(dts))]
+            wk = r.choice(["WeighInvVol", "WeighERC", "WeighMeanVar"])
+            st = [{"a": "SelectWhere", "args": ["wd"]}, {"a": wk, "kw": {"lookback": {"days": r.randint(10, 16)}, "lag": {"days": r.choice([0, 1])}}}, {"a": "LimitDeltas", "kw": {"limit": r.choice([0.05, 0.1, 0.2])}}, {"a": "Rebalance"}]
+            fired["capped_wind_down_after_empty_selection"] = 1
+            plan = {"driver": "engine", "cfg": {"integer": False, "comm": None, "capital": 1e6, "fi": False, "obs_price": False, "obs_eod": False, "profile": "weigh"},
+                    "tree": {"k": "S", "name": "top", "cls": "Strategy", "fi": False, "how": "list", "children": [], "algos": st}, "feed": fspec, "extra": {"wd": drive_engine._frame(tick, sig, dtype="bool")}, "fired": fired}
         elif i % 10 == 4:
             # unit-risk tables (a dict of frames inside additional_data, some securities missing from some tables): nested
             # inputs are the caller's too
@@ -1932,6 +1979,19 @@ class C19(Spec):
             # (mean-variance, risk parity) turns last-bit differences of its inputs into 1e-8-level differences of its weights
             iterative = any(a.get("a") in ("WeighMeanVar", "WeighERC") or (a.get("algo") or {}).get("a") in ("WeighMeanVar", "WeighERC") for _p2, s2 in drive_engine.trees.strategies(plan["tree"]) for a in s2.get("algos", []))
             twin_rel = 1e-6 if iterative else 1e-10
+            # ... and on an ill-conditioned problem (a long window, an optimum on the bounds) into 1e-3-level ones (thorough tier:
+            # SLSQP returned -0.0009 / 1.0009 for one twin and 0 / 1.0009 for the other): once such a stack may have run - after
+            # the date of the RunAfterDate in front of it - a numeric difference above the band is not judged; up to that date
+            # the twins are held to 1e-10 like any other
+            pre_rows = len(plan["feed"]["dates"]) + 1
+            if iterative:
+                for _p2, s2 in drive_engine.trees.strategies(plan["tree"]):
+                    st2 = s2.get("algos", [])
+                    if any(a.get("a") in ("WeighMeanVar", "WeighERC") or (a.get("algo") or {}).get("a") in ("WeighMeanVar", "WeighERC") for a in st2):
+                        gate = [a["date"] for a in st2 if a.get("a") == "RunAfterDate"]
+                        first = (plan["feed"]["dates"].index(gate[0]) + 1) if gate and gate[0] in plan["feed"]["dates"] else 0
+                        pre_rows = min(pre_rows, first)  # rows 0 .. first (pre-start row + dates 0 .. first-1) precede its first run
+            amplified = False
             gscale = max(1.0, float(np.nanmax(np.abs(lazy.root.data["value"].to_numpy(dtype=float)))))
             for name in sorted(set(ha) | set(hb)):
                 ca, cb = ha.get(name, {}), hb.get(name, {})
@@ -1945,6 +2005,19 @@ class C19(Spec):
                         break
                     scale = max(gscale, float(np.nanmax(np.abs(np.concatenate([x, y])))) if len(x) else gscale)
                     d = np.abs(np.nan_to_num(x) - np.nan_to_num(y))
+                    if iterative and len(d):
+                        over = d > np.where(np.arange(len(d)) <= pre_rows, 1e-10, twin_rel) * scale
+                        if over.any() and int(np.argmax(over)) > pre_rows:
+                            amplified = True
+                            continue
+                        if over.any():
+                            d = np.where(np.arange(len(d)) <= pre_rows, d, 0.0)
+                            i = int(d.argmax())
+                            if c == "position":
+                                posdiff = True
+                            if worst is None:
+                                worst = (name, c, "row %d: %r (lazy) vs %r (eager)" % (i, x[i], y[i]))
+                        continue
                     if len(d) and float(d.max()) > twin_rel * scale:
                         i = int(d.argmax())
                         if c == "position":
@@ -1953,6 +2026,8 @@ class C19(Spec):
                             worst = (name, c, "row %d: %r (lazy) vs %r (eager)" % (i, x[i], y[i]))
                 if worst and worst[2] == "length":
                     break
+            if worst is None and amplified:
+                info["inconclusive_twin_behind_iterative_optimiser"] = 1
             if worst is not None:
                 if want_int and posdiff:
                     info["inconclusive_integer_flip"] = 1
@@ -2587,7 +2662,15 @@ class C15(Spec):
         drive_engine.ensure_moving(fspec, r)  # risk algos need moving prices
         warm = 13
         extra = {}
-        full = [t for j, t in enumerate(tickers) if all(row[j] is not None for row in fspec["prices"])] or tickers[:1]
+        full = [t for j, t in enumerate(tickers) if all(row[j] is not None for row in fspec["prices"])]
+        if not full:
+            # every name is listed late (0.15^n): the trading tail needs one that is quoted throughout - a target in a name
+            # without a quote is an ill-formed plan (the refusal is C05 / C10's subject); the first one gets a full history
+            first = next(row[0] for row in fspec["prices"] if row[0] is not None)
+            for row in fspec["prices"]:
+                if row[0] is None:
+                    row[0] = first
+            full = tickers[:1]
         branches = []
         win = lambda: {"lookback": {"days": r.randint(12, 17)}, "lag": {"days": r.choice([0, 0, 1, 2])}}  # noqa: E731
 
